@@ -1,16 +1,38 @@
-(** BaseWorklist.save / __enter__ / __exit__ / __str__ (file system modelled as: the file's content
-    becomes exactly the encoded text) *)
-From Robo Require Import Prelude Str.
+(** BaseWorklist.save / __init__(filepath) / __enter__ / __exit__ / __str__ / __repr__.
+
+    File system: ONE file is followed, the one at the path given to [save]; its state is
+    [option string] ([None] = the file does not exist, [Some txt] = its content as Latin-1 text,
+    one [ascii] per byte). That a successful [save] leaves the file with exactly the encoded text
+    (unlink, then open with mode "w") is the DEFINITION of the file model, not a theorem.
+
+    Modelling assumptions (outside the model, no theorem speaks about them):
+    - records and file names are [string] = lists of [ascii], i.e. every character is one of the 256
+      Latin-1 characters. A record with a character outside Latin-1 makes the library raise
+      UnicodeEncodeError AFTER the old file was unlinked and re-created, leaving an EMPTY file; the model
+      cannot express such a record.
+    - POSIX paths ('/' separates components), as on the machine where the correspondence harness runs. *)
+From Robo Require Import Prelude Str Records Params.
 #[local] Open Scope string_scope.
 
 Definition crlf : string := String (ascii_of_nat 13) (String (ascii_of_nat 10) EmptyString).
 Definition lf : string := String (ascii_of_nat 10) EmptyString.
 
-(** text written: records joined by "\n", every "\n" translated to CRLF by [newline="\r\n"] *)
-Definition encode_file (recs : list string) : string := join crlf recs.
+(** what [open(..., "w", newline="\r\n")] does to the text written: EVERY "\n" becomes "\r\n"
+    (also one inside a record); a "\r" is left alone *)
+Fixpoint translate_lf (s : string) : string :=
+  match s with
+  | EmptyString => EmptyString
+  | String a r =>
+      if Ascii.eqb a (ascii_of_nat 10) then String (ascii_of_nat 13) (String a (translate_lf r))
+      else String a (translate_lf r)
+  end.
+
+(** text written: [file.write("\n".join(self))] through the newline translation *)
+Definition encode_file (recs : list string) : string := translate_lf (join lf recs).
+(** [__repr__] = [__str__] = ["\n".join(self)] *)
 Definition str_worklist (recs : list string) : string := join lf recs.
 
-(** reading back: split at CRLF *)
+(** reading back: [content.split("\r\n")] *)
 Fixpoint split_crlf_aux (s cur : string) : list string :=
   match s with
   | EmptyString => [cur]
@@ -25,13 +47,25 @@ Fixpoint split_crlf_aux (s cur : string) : list string :=
   end.
 Definition decode_file (s : string) : list string := split_crlf_aux s EmptyString.
 
+(** ASCII lower-casing. [str.lower] also changes the upper-case letters of the upper half of Latin-1
+    (À -> à ...), but no character other than g G w W l L and "." is sent to one of g w l "." (checked
+    over all of Unicode), so the comparison with ".gwl" below is the library's. *)
 Definition lower_ascii (a : ascii) : ascii :=
   let n := nat_of_ascii a in
   if ((65 <=? n) && (n <=? 90))%nat then ascii_of_nat (n + 32) else a.
 Fixpoint lower (s : string) : string :=
   match s with EmptyString => EmptyString | String a r => String (lower_ascii a) (lower r) end.
-(** [filepath.suffix.lower() == ".gwl"]: the part of the name from its last dot on, which must not be the
-    first character of the name (a leading dot starts a hidden file, not an extension) *)
+
+(** [PurePosixPath(p).name]: the path is split at '/', empty components and "." components are dropped
+    (so "a.gwl/", "a.gwl/." and "x//a.gwl" all name "a.gwl"; ".." is kept), the name is the last remaining
+    component, or "" if there is none ("", "/", "."). *)
+Definition path_component (c : string) : bool := negb (String.eqb c "" || String.eqb c ".").
+Definition path_parts (p : string) : list string := filter path_component (split_on "/"%char p).
+Definition basename (p : string) : string := last (path_parts p) "".
+
+(** [PurePath.suffix] (Python 3.12): [i = name.rfind('.')]; [name[i:]] if [0 < i < len(name) - 1], else "".
+    I.e. the part of the name from its last dot on, unless that dot is the first character of the name (a leading
+    dot starts a hidden file, not an extension) or the last one (a name ending in a dot has no suffix). *)
 Fixpoint last_dot_suffix (s : string) (cur : option string) : option string :=
   match s with
   | EmptyString => cur
@@ -40,10 +74,50 @@ Fixpoint last_dot_suffix (s : string) (cur : option string) : option string :=
 Definition suffix (name : string) : string :=
   match name with
   | EmptyString => EmptyString
-  | String a r => match last_dot_suffix r None with Some x => x | None => EmptyString end
+  | String a r => match last_dot_suffix r None with
+                  | Some (String _ EmptyString) => EmptyString
+                  | Some x => x
+                  | None => EmptyString
+                  end
   end.
-Definition name_ok (filename : string) : bool := String.eqb (lower (suffix filename)) ".gwl".
+(** the test on one path component / on a path: [Path(filepath).suffix.lower() == ".gwl"] *)
+Definition file_ok (name : string) : bool := String.eqb (lower (suffix name)) ".gwl".
+Definition name_ok (filepath : string) : bool := file_ok (basename filepath).
 
-(** [save]: file content afterwards, or refusal leaving the old content *)
-Definition save (filename : string) (old : option string) (recs : list string) : option string * option err :=
-  if name_ok filename then (Some (encode_file recs), None) else (old, Some EReject).
+(** [save]: file content afterwards, or refusal (AssertionError, raised before the file is touched)
+    leaving the old state *)
+Definition save (filepath : string) (old : option string) (recs : list string) : option string * option err :=
+  if name_ok filepath then (Some (encode_file recs), None) else (old, Some EReject).
+
+(** * The worklist as a context manager
+
+    The Python object IS the list of its record strings plus the optional path given to [__init__].
+    [wf_recs] are those strings; [ws_lines] below connects them with the record model. *)
+Record wl_file := { wf_path : option string; wf_recs : list string }.
+
+(** [__init__(filepath)]: [self._filepath = Path(filepath)] or [None]; the list starts empty *)
+Definition wl_init (path : option string) : wl_file := {| wf_path := path; wf_recs := [] |}.
+(** appending records (what every worklist method does, [self.append] / [self.extend]) *)
+Definition wl_append (w : wl_file) (rs : list string) : wl_file :=
+  {| wf_path := wf_path w; wf_recs := (wf_recs w ++ rs)%list |}.
+(** [__enter__]: [self.clear()] *)
+Definition wl_enter (w : wl_file) : wl_file := {| wf_path := wf_path w; wf_recs := [] |}.
+(** [self.save(filepath)]: any path, the object is unchanged *)
+Definition wl_save (w : wl_file) (filepath : string) (old : option string) : option string * option err :=
+  save filepath old (wf_recs w).
+(** [__exit__(exc_type, exc_val, exc_tb)]: [if self._filepath: self.save(self._filepath)]; returns None.
+    The exception arguments are not looked at: the file is written in the same way when an exception leaves
+    the block ([raised = true]), and the exception then propagates (None is falsy). A [Path] is always truthy
+    (also [Path("")], which is "." and is refused by [save]), so the test is "a path was given".
+    [old] / the result are the state of the file at [wf_path]; without a path nothing is touched. *)
+Definition wl_exit (w : wl_file) (raised : bool) (old : option string) : option string * option err :=
+  match wf_path w with
+  | Some p => save p old (wf_recs w)
+  | None => (old, None)
+  end.
+
+(** the same on the record-level worklist state of Params: the lines are the rendered records *)
+Definition ws_lines (w : wstate) : list string := map render (w_recs w).
+Definition ws_clear (w : wstate) : wstate :=
+  {| w_recs := []; w_max := w_max w; w_autosplit := w_autosplit w; w_diti := w_diti w; w_dev := w_dev w |}.
+Definition ws_file (path : option string) (w : wstate) : wl_file := {| wf_path := path; wf_recs := ws_lines w |}.
